@@ -205,6 +205,7 @@ func TestCheck(t *testing.T) {
 	nQ := run.N(800, 12000)
 	opts := gen.DefaultGenOpts()
 	opts.UnionSecondFragment = true
+	opts.UnionSelfFragment = true
 	opts.RootTypename = true
 	var executions int64
 	run.Each(nQ, 8, func(i int) {
